@@ -15,6 +15,9 @@ type C10Case struct {
 	Path  string `json:"path"`
 	Class string `json:"class"` // how the path was produced (informational)
 	Build int    `json:"build,omitempty"` // construction-route seed (0 = Add/Set)
+	// Muts: mutations applied directly to nested containers (through their own handles) between
+	// repeated reads of the same path; every read must agree with stepwise navigation at that time
+	Muts []CloneMut `json:"muts,omitempty"`
 }
 
 // tfKeys: non-empty, sigil-free keys (the only keys tree form can address).
@@ -274,6 +277,13 @@ func GenC10(t *rapid.T) *C10Case {
 	if drawBool(t, "variant") {
 		c.Build = 1 + genRaw(t)
 	}
+	if oneIn(t, 3, "rereads") {
+		ops := []string{"add", "insert", "replace", "delete", "pop", "clear", "reverse", "set", "unset", "oclear"}
+		for i, n := 0, drawInt(t, 1, 3, "nmuts"); i < n; i++ {
+			c.Muts = append(c.Muts, CloneMut{Node: genRaw(t), Op: ops[drawIdx(t, len(ops), "mop")], A: genRaw(t),
+				Key: tfKeys[drawIdx(t, len(tfKeys), "mkey")], V: genValSpec(t, 2)})
+		}
+	}
 	return c
 }
 
@@ -388,49 +398,26 @@ func CheckC10(c *C10Case, st *Stats) error {
 		return nil
 	}
 	root := BuildVariant(c.Root, c.Build)
-	before, err := TakeIdentSnap(root)
-	if err != nil {
-		return err
-	}
-	want, outcome := resolveTF(root, c.Path, st)
 	st.Count("class." + c.Class)
-
-	var gotType at.Type
-	if p, panicked := catch(func() { gotType = typeOfTF(root, c.Path) }); panicked {
-		return errf("TypeOfTF(%q) panicked: %v\n tree: %s", c.Path, p, c.Root.Show())
-	}
-	var got any
-	pv, getPanicked := catch(func() { got = getTF(root, c.Path) })
-
-	switch outcome {
-	case tfResolved:
-		st.Count("outcome.resolved")
-		if getPanicked {
-			return errf("GetTF(%q) panicked (%v) although stepwise navigation reaches %s\n tree: %s", c.Path, pv, showAny(want), c.Root.Show())
-		}
-		if !ifaceEq(got, want) {
-			return errf("GetTF(%q) = %s, stepwise navigation gives %s\n tree: %s", c.Path, showAny(got), showAny(want), c.Root.Show())
-		}
-		if gotType != typeOfAny(want) {
-			return errf("TypeOfTF(%q) = %d, the value reached stepwise is %s (type %d)\n tree: %s", c.Path, gotType, showAny(want), typeOfAny(want), c.Root.Show())
-		}
-	case tfUnresolved:
-		st.Count("outcome.unresolved")
-		if gotType != at.TypeUndefined {
-			return errf("TypeOfTF(%q) = %d for a path that does not resolve; expected TypeUndefined\n tree: %s", c.Path, gotType, c.Root.Show())
-		}
-		if !getPanicked {
-			return errf("GetTF(%q) returned %s for a path that does not resolve; it must panic\n tree: %s", c.Path, showAny(got), c.Root.Show())
-		}
-	case tfAmbiguous:
-		st.Count("outcome.ambiguous_index_spelling")
-	}
-	after, err := TakeIdentSnap(root)
+	outcome, err := c10Read(root, c, st, "")
 	if err != nil {
 		return err
 	}
-	if !before.Same(after) {
-		return errf("a tree-form read with path %q modified the tree: %s -> %s", c.Path, before.Tree.Show(), after.Tree.Show())
+	// repeated reads with mutations of nested containers in between (made through their own handles)
+	for i, m := range c.Muts {
+		ids := Idents(root)
+		target := ids[m.Node%len(ids)]
+		var applied bool
+		if p, panicked := catch(func() { applied = applyCloneMut(root, target, m) }); panicked {
+			return errf("mutation %d (%s) between reads panicked: %v", i, m.Op, p)
+		}
+		if !applied {
+			continue
+		}
+		st.Count("reread_after." + m.Op)
+		if _, err := c10Read(root, c, nil, " (read again after a "+m.Op+" on a nested container)"); err != nil {
+			return err
+		}
 	}
 	segs, ok := parseTF(c.Path)
 	both := false
@@ -452,6 +439,57 @@ func CheckC10(c *C10Case, st *Stats) error {
 		st.Count("resolved.both_sigils")
 	}
 	return nil
+}
+
+// c10Read performs one TypeOfTF / GetTF pair and compares it with stepwise navigation of the tree as it is now.
+func c10Read(root any, c *C10Case, st *Stats, when string) (tfOutcome, error) {
+	before, err := TakeIdentSnap(root)
+	if err != nil {
+		return 0, err
+	}
+	want, outcome := resolveTF(root, c.Path, st)
+	count := func(k string) {
+		if st != nil {
+			st.Count(k)
+		}
+	}
+	var gotType at.Type
+	if p, panicked := catch(func() { gotType = typeOfTF(root, c.Path) }); panicked {
+		return 0, errf("TypeOfTF(%q) panicked%s: %v\n tree: %s", c.Path, when, p, before.Tree.Show())
+	}
+	var got any
+	pv, getPanicked := catch(func() { got = getTF(root, c.Path) })
+	switch outcome {
+	case tfResolved:
+		count("outcome.resolved")
+		if getPanicked {
+			return 0, errf("GetTF(%q) panicked%s (%v) although stepwise navigation reaches %s\n tree: %s", c.Path, when, pv, showAny(want), before.Tree.Show())
+		}
+		if !ifaceEq(got, want) {
+			return 0, errf("GetTF(%q) = %s%s, stepwise navigation gives %s\n tree: %s", c.Path, showAny(got), when, showAny(want), before.Tree.Show())
+		}
+		if gotType != typeOfAny(want) {
+			return 0, errf("TypeOfTF(%q) = %d%s, the value reached stepwise is %s (type %d)\n tree: %s", c.Path, gotType, when, showAny(want), typeOfAny(want), before.Tree.Show())
+		}
+	case tfUnresolved:
+		count("outcome.unresolved")
+		if gotType != at.TypeUndefined {
+			return 0, errf("TypeOfTF(%q) = %d%s for a path that does not resolve; expected TypeUndefined\n tree: %s", c.Path, gotType, when, before.Tree.Show())
+		}
+		if !getPanicked {
+			return 0, errf("GetTF(%q) returned %s%s for a path that does not resolve; it must panic\n tree: %s", c.Path, showAny(got), when, before.Tree.Show())
+		}
+	case tfAmbiguous:
+		count("outcome.ambiguous_index_spelling")
+	}
+	after, err := TakeIdentSnap(root)
+	if err != nil {
+		return 0, err
+	}
+	if !before.Same(after) {
+		return 0, errf("a tree-form read with path %q modified the tree%s: %s -> %s", c.Path, when, before.Tree.Show(), after.Tree.Show())
+	}
+	return outcome, nil
 }
 
 func init() {
